@@ -173,6 +173,7 @@ func prepareModules() error {
 func startModules() error {
 	var rep *report
 	var firstErr error
+	started := make(map[*Module]struct{})
 	reports := make(chan *report)
 	execCnt := 0
 	reportCnt := 0
@@ -190,6 +191,12 @@ func startModules() error {
 			case statusWaiting:
 				waiting++
 			case statusReady:
+				// A module whose start failed is offline again before its
+				// report has been received: never start it twice in one pass.
+				if _, ok := started[m]; ok {
+					continue
+				}
+				started[m] = struct{}{}
 				execCnt++
 				m.start(reports)
 				// DEBUG SNIPPET
